@@ -3,7 +3,7 @@ import random
 from detsim.core import HistoryWorld, Violation
 from refmodel import vm as refvm
 from refmodel.rcell import RCell
-from .common import call, to01, tvm_bits, lib_cell_from_rcell, rcell_from_lib, struct_diff, Cell, Builder, Slice
+from .common import call, call_shallow, to01, tvm_bits, lib_cell_from_rcell, rcell_from_lib, struct_diff, Cell, Builder, Slice
 from .build import _rbits
 
 from pytoniq_core.tlb.vm_stack import VmStack, VmTuple, VmCont, VmControlData, VmStackValue
@@ -482,7 +482,8 @@ class VmWorld(HistoryWorld):
     def op_serialize(self, st, op, ctx):
         before = deep_snapshot(st.lib)
         nbefore = len(st.lib)
-        ok, c1 = call(VmStack.serialize, st.lib)
+        docall = call_shallow if ctx.cfg.get('depth') else call     # deep stacks: from the bottom of an empty stack (see call_shallow)
+        ok, c1 = docall(VmStack.serialize, st.lib)
         after = deep_snapshot(st.lib)
         klass = self._klass(st)
         if after != before or len(st.lib) != nbefore:
@@ -498,7 +499,7 @@ class VmWorld(HistoryWorld):
             self.V(ctx, 'serialise-fails', 'serialize', klass, 'VmStack.serialize of a supported stack raised %r' % (c1,))
             return
         ctx.evaluated(1)
-        ok2, c2 = call(VmStack.serialize, st.lib)
+        ok2, c2 = docall(VmStack.serialize, st.lib)
         if not ok2 or c2.hash != c1.hash:
             self.V(ctx, 'second-serialisation-differs', 'serialize', klass, 'serialising the same stack twice gave different cells')
         # schema conformance
@@ -523,7 +524,8 @@ class VmWorld(HistoryWorld):
         if st.last is None:
             return
         cell, want, klass = st.last
-        ok, vals = call(lambda: VmStack.deserialize(cell.begin_parse()))
+        docall = call_shallow if ctx.cfg.get('depth') else call
+        ok, vals = docall(lambda: VmStack.deserialize(cell.begin_parse()))
         if not ok:
             self.V(ctx, 'deserialise-fails', 'deserialize', klass, 'VmStack.deserialize of the library\'s own cell raised %r' % (vals,))
             return
@@ -535,7 +537,7 @@ class VmWorld(HistoryWorld):
             self.V(ctx, 'roundtrip', 'deserialize', kk, 'value #%d came back as %s, pushed %s' % (i, str(got[i] if i < len(got) else None)[:200], str(want[i] if i < len(want) else None)[:200]))
             return
         # equal values serialise equally: what the parser returned must be accepted by the serialiser and give the same cell
-        ok, c2 = call(VmStack.serialize, vals)
+        ok, c2 = docall(VmStack.serialize, vals)
         ctx.evaluated(1)
         if not ok:
             self.V(ctx, 'parsed-values-not-serialisable', 'serialize-of-parsed', klass, 'the values returned by VmStack.deserialize cannot be serialised again: %r' % (c2,))
